@@ -45,10 +45,13 @@ fn stub_composite<T: Sample>(
 /// Which outcome the composite_preprocess stub produces: 0 = any (symbolic), 1 = Ok(true) (no composition needed),
 /// 2 = Ok(false) (composition follows), 3 = Err. The Done-state blend harness is split by this outcome because the
 /// all-in-one version exceeds the memory budget; together the instantiations cover every outcome.
-static mut PRE_MODE: u8 = 0;
+// (Kani 0.68 pitfall: a `static mut` whose initial bytes equal some other constant may share storage with it, so the
+//  initial value is a unique 8-byte pattern and the modes are offsets from it.)
+const PRE_BASE: u64 = 0x5052_455f_4d4f_4400;
+static mut PRE_MODE: u64 = PRE_BASE;
 
 fn stub_composite_preprocess(_frame: &IndexedFrame, _grid: &mut ImageWithRegion, _pool: &JxlThreadPool) -> Result<bool> {
-    match unsafe { PRE_MODE } {
+    match unsafe { PRE_MODE } - PRE_BASE {
         1 => Ok(true),
         2 => Ok(false),
         // a fixed error value: Result<bool, Error> keeps its Ok/Err discriminant in a niche of the error's tag, so a
@@ -198,7 +201,7 @@ blend_contract!(handle_blend_none, 0);
 macro_rules! blend_done_contract {
     ($name:ident, $mode:expr) => {
         handle_contract!($name, 1, 1, |h| {
-            unsafe { PRE_MODE = $mode; }
+            unsafe { PRE_MODE = PRE_BASE + $mode; }
             let img = RenderedImage::new(Arc::clone(&h));
             let pool = JxlThreadPool::none();
             let r = img.blend(Some(Region::with_size(8, 8)), &pool);
